@@ -626,6 +626,23 @@ func enumC02(env *engine.Env, yield func(any) bool) {
 			return
 		}
 	}
+	// every architecture on a non-linux platform (deb, rpm and ipk take one), with and without the format override
+	for _, a := range c02Arches {
+		for _, plat := range []string{"darwin", "freebsd"} {
+			c := baseMeta()
+			c.Arch, c.Platform = a, plat
+			for _, f := range []string{"deb", "rpm", "ipk"} {
+				if !yield(C02Case{Part: "arch-platform", Format: f, Cfg: c}) {
+					return
+				}
+				co := c
+				co.FormatArch = "customarch"
+				if !yield(C02Case{Part: "arch-platform", Format: f, Cfg: co}) {
+					return
+				}
+			}
+		}
+	}
 	if env.Thorough() {
 		// every pair of extras together
 		for i, a := range extras[:13] {
@@ -635,23 +652,6 @@ func enumC02(env *engine.Env, yield func(any) bool) {
 				b(&c)
 				if !emit("extras2", c) {
 					return
-				}
-			}
-		}
-		// every architecture on a non-linux platform (deb, rpm and ipk take one), with and without the format override
-		for _, a := range c02Arches {
-			for _, plat := range []string{"darwin", "freebsd"} {
-				c := baseMeta()
-				c.Arch, c.Platform = a, plat
-				for _, f := range []string{"deb", "rpm", "ipk"} {
-					if !yield(C02Case{Part: "arch-platform", Format: f, Cfg: c}) {
-						return
-					}
-					co := c
-					co.FormatArch = "customarch"
-					if !yield(C02Case{Part: "arch-platform", Format: f, Cfg: co}) {
-						return
-					}
 				}
 			}
 		}
